@@ -15,6 +15,12 @@ inductive Method where
   | pre | post | level | levelRtl | zigzag | zigzagRtl | random | unordered
 deriving DecidableEq, Repr, Inhabited
 
+/-- `IterMethod.<NAME>.value` (common.py); compared with `Generated/Tables.lean` in C06. -/
+def Method.value : Method → String
+  | .pre => "pre" | .post => "post" | .level => "level" | .levelRtl => "level_rtl"
+  | .zigzag => "zigzag" | .zigzagRtl => "zigzag_rtl" | .random => "random"
+  | .unordered => "unordered"
+
 mutual
 /-- `Node._iter_pre`: `for c in children: yield c; yield from c._iter_pre()`. -/
 def iterPre : T → List T
